@@ -644,5 +644,52 @@ _apk = lambda l0, al, k: z3.If(k <= 0, l0, snoc(AppendedUpTo(l0, al, k - 1), nth
 z3.RecAddDefinition(AppendedUpTo, [_al0, _al, _k], _apk(_al0, _al, _k))
 UNFOLD['AppendedUpTo'] = _apk
 
-CONTRACTS = [ResolveFieldValueOrError(), WrapsWithDirectives(), DirectiveExecutor(), ResolverExecutor(), ComputeDirectiveNodes(), ScalarBake(), EnumTypeBake(), EnumValueBake(), InputFieldBake(), ArgumentBake(), FieldBake()]
+
+class InputObjectBake(Contract):
+    """GraphQLInputObjectType.bake: one on_post_input_coercion chain of the type's own directives on both the variable and the literal path"""
+    key = 'tartiflette/types/input_object.py::GraphQLInputObjectType.bake'
+    property_ids = ('C13',)
+    params = ['self', 'schema']
+    self_class = 'GraphQLInputObjectType'
+    modifies_fields = ('introspection_directives', 'input_coercer', 'literal_coercer')
+
+    def pre(self, A, st):
+        return [('self', V.oref(A['self']) >= 0)] + bake_pre(A)
+
+    def post(self, A, st0, out):
+        if out.kind == 'raise':
+            return never_raises(out)
+        me = A['self']
+        ds = baked_directives(A['schema'], attr0(me, 'directives'))
+        post_in = chain(ds, 'on_post_input_coercion')
+        return [('input_path', fld(out.st, 'input_coercer', me) == closure(CI + 'directives_coercer.py::input_directives_coercer',
+                                                                           coercer=closure(CI + 'input_object_coercer.py::input_object_coercer', input_object_type=me), directives=post_in)),
+                ('literal_path_same_hooks', fld(out.st, 'literal_coercer', me) == closure(CL + 'directives_coercer.py::literal_directives_coercer',
+                                                                                          coercer=closure(CL + 'input_object_coercer.py::input_object_coercer', input_object_type=me), directives=post_in)),
+                ('introspection', fld(out.st, 'introspection_directives', me) == chain(ds, 'on_introspection'))]
+
+
+class InterfaceBake(Contract):
+    """GraphQLInterfaceType.bake: the abstract coercer bound to this type under the type's on_pre_output_coercion chain"""
+    key = 'tartiflette/types/interface.py::GraphQLInterfaceType.bake'
+    property_ids = ('C13',)
+    params = ['self', 'schema']
+    self_class = 'GraphQLInterfaceType'
+    modifies_fields = ('introspection_directives', 'output_coercer')
+
+    def pre(self, A, st):
+        return [('self', V.oref(A['self']) >= 0)] + bake_pre(A)
+
+    def post(self, A, st0, out):
+        if out.kind == 'raise':
+            return never_raises(out)
+        me = A['self']
+        ds = baked_directives(A['schema'], attr0(me, 'directives'))
+        return [('output_path', fld(out.st, 'output_coercer', me) == closure(CO + 'directives_coercer.py::output_directives_coercer',
+                                                                             coercer=closure(CO + 'abstract_coercer.py::abstract_coercer', abstract_type=me),
+                                                                             directives=chain(ds, 'on_pre_output_coercion', with_default=True))),
+                ('introspection', fld(out.st, 'introspection_directives', me) == chain(ds, 'on_introspection'))]
+
+
+CONTRACTS = [ResolveFieldValueOrError(), WrapsWithDirectives(), DirectiveExecutor(), ResolverExecutor(), ComputeDirectiveNodes(), ScalarBake(), EnumTypeBake(), EnumValueBake(), InputFieldBake(), ArgumentBake(), FieldBake(), InputObjectBake(), InterfaceBake()]
 LEMMAS = []
